@@ -631,6 +631,19 @@ fn main() {
     let out = args.str("out", "trace.ndjson");
     let threads = args.u64("threads", 8) as usize;
     let fault = std::env::var("VERIF_FAULT").ok().filter(|s| !s.is_empty());
+    if args.get("repro-d11").is_some() {
+        // minimal reproduction of finding D11: one peer at distance 1 from the local key
+        let p = PeerId::random();
+        let mut raw = Key::from(p).verif_raw();
+        raw[31] ^= 1;
+        let mut table = RoutingTable::new(Key::verif_from_raw(raw, PeerId::random()));
+        table.add_known_peer(p, vec!["/ip4/10.0.0.1/tcp/1".parse().unwrap()], ConnectionType::Connected);
+        let buckets: Vec<usize> = table.verif_buckets().iter().map(|(i, _)| *i).collect();
+        let res = table.closest(&Key::from(p), 20);
+        println!("stored peers: 1 (bucket {:?}); closest(target = that peer, k = 20) returned {} entries, all the same peer: {}",
+            buckets, res.len(), res.iter().all(|x| peer_info(x).0 == p));
+        return;
+    }
     let pool = Arc::new(Pool::new(args.u64("pool", 1 << 17) as usize, seed));
     enum Job {
         Beh(usize, Value),
